@@ -28,7 +28,7 @@ class AppRaise(Exception):
 
 
 class RecSubscriber(Subscriber):
-    def __init__(self, w, ep, name, raise_in=None, request_on_subscribe=None):
+    def __init__(self, w, ep, name, raise_in=None, request_on_subscribe=None, cancel_on_subscribe=False):
         self.w = w
         self.ep = ep
         self.name = name
@@ -37,6 +37,7 @@ class RecSubscriber(Subscriber):
         self.raise_in = raise_in or ()
         self.request_on_subscribe = request_on_subscribe
         self.after_cancel = None  # index into signals when the app cancelled
+        self.cancel_on_subscribe = cancel_on_subscribe
 
     def _rec(self, sig):
         self.signals.append(sig)
@@ -47,6 +48,12 @@ class RecSubscriber(Subscriber):
     def on_subscribe(self, subscription):
         self.subscription = subscription
         self._rec(('S',))
+        if self.cancel_on_subscribe:
+            # Reactive Streams allows cancelling from inside onSubscribe
+            self.w.api(self.ep, self.name, 'cancel-in-on_subscribe', ())
+            subscription.cancel()
+            self.mark_cancel()
+            return
         if self.request_on_subscribe:
             subscription.request(self.request_on_subscribe)
 
